@@ -66,6 +66,22 @@ def check_eq(chk, repo):
     for n in typecmp:
         ok = isinstance(n.ops[0], (ast.Is, ast.Eq)) and len(n.ops) == 1
         chk.decide("C18.EQ", cons + "#kind", True if ok else None, f"{ast.unparse(n)}", rel=rel, node=n)
+    # the comparison must involve the dynamic class of self: a test against one fixed class that several
+    # action classes derive from makes actions of different kinds with equal parameters compare equal
+    dynamic = any(isinstance(x, ast.Call) and isinstance(x.func, ast.Name) and x.func.id == "type" and x.args
+                  and isinstance(x.args[0], ast.Name) and x.args[0].id == params[0]
+                  for n in calls + typecmp for x in ast.walk(n)) or \
+        any(isinstance(x, ast.Attribute) and x.attr == "__class__" for n in calls + typecmp for x in ast.walk(n))
+    fixed = [n for n in calls if isinstance(n.args[1], ast.Name) and n.args[1].id[:1].isupper()]
+    if (calls or typecmp) and not dynamic:
+        subs = [c2.name for _, c2 in repo.all_classes() if fixed and fixed[0].args[1].id in repo.bases(c2)]
+        chk.decide("C18.EQ", cons + "#same-kind", False if (fixed and len(subs) > 1) else None,
+                   f"the kind test `{ast.unparse((calls + typecmp)[0])}` does not involve type(self)" +
+                   (f": {subs[:4]} all pass it, so e.g. a Copy equals a Move with the same parameters" if fixed else ""),
+                   rel=rel, node=(calls + typecmp)[0])
+    elif calls or typecmp:
+        chk.decide("C18.EQ", cons + "#same-kind", True, "the kind test involves the dynamic class of self", rel=rel, node=f,
+                   nontrivial=False)
     # parameters compared: self.args == other.args
     argcmp = False
     for n in ast.walk(f):
@@ -350,6 +366,12 @@ def check_yields(chk, ctx):
             elif rec.kind in ("Copy", "Move"):
                 src, dst = rec.arg(1, "from_storage"), rec.arg(2, "to_storage")
                 sv = storage_values(st, src)
+                a_ = alias_attr(st, src) if is_lin(src) else None
+                if a_ and a_[6:] in ("snapshots", "snapshots_in_ram", "snapshots_on_disk", "binomial_snapshots", "period", "max_n", "n", "r"):
+                    chk.decide("C18.FLAGS", cons, False,
+                               f"{rec.kind} names {a_} (an integer attribute) as its source storage" + (f" under {cfg}" if cfg else ""),
+                               rel=run_.rel, node=rec.node)
+                    continue
                 if sv is None and isinstance(src, Val) and src.kind == "label":
                     sv = {"StorageType.RAM", "StorageType.DISK"}
                 if sv is None and run_.owner in ("RevolveCheckpointSchedule", "MultistageCheckpointSchedule"):
